@@ -25,10 +25,9 @@ func HSkipUnsupported() {
 		if err != nil {
 			return
 		}
-		fl := uint8(0)
-		if mode == 2 {
-			fl = vr.U8() // critical flag and reserved bits on an implemented payload
-		}
+		// critical flag and reserved bits on an implemented payload are arbitrary in every mode: they are
+		// ignored wherever the payload stands, also in front of an unsupported one
+		fl := vr.U8()
 		items = append(items, VItem{Type: uint8(p.Type()), Flags: fl, Body: body})
 	}
 	n := len(items)
